@@ -5,6 +5,7 @@ package main
 // harness entry (optionally one shard of it).
 
 import (
+	"strconv"
 	"encoding/json"
 	"fmt"
 	"go/types"
@@ -230,6 +231,50 @@ func registerVfModel(e *Engine) {
 	for real, model := range red {
 		if f := mp.Func(model); f != nil {
 			e.redirect[real] = f
+		}
+	}
+	// strconv.FormatInt / FormatUint / Itoa: constants natively; values the
+	// path bounds below 10^7 by their Go-source model (digits computed);
+	// anything wider like big.Int.Text (abstract digits tied to the value by
+	// the parse(print(v)) = v axiom), because 64-bit division by constants
+	// stalls the solver.
+	for _, name := range []string{"strconv.FormatInt", "strconv.FormatUint", "strconv.Itoa"} {
+		name := name
+		rf := e.redirect[name]
+		if rf == nil {
+			continue
+		}
+		delete(e.redirect, name)
+		e.intercept[name] = func(e *Engine, st *State, fr *Frame, in ssa.CallInstruction, a []Val) Val {
+			x := a[0].(*Term)
+			base := 10
+			if name != "strconv.Itoa" {
+				base = e.needInt(st, a[1], "FormatInt base")
+			}
+			signed := name != "strconv.FormatUint"
+			if x.IsConst() {
+				if signed {
+					return constStr(strconv.FormatInt(int64(x.c), base))
+				}
+				return constStr(strconv.FormatUint(x.c, base))
+			}
+			lim := ConstBV(64, 10000000)
+			small := BvCmp("bvult", x, lim)
+			if signed {
+				small = And(BvCmp("bvslt", x, lim), BvCmp("bvslt", ConstBV(64, ^uint64(10000000)+1), x))
+			}
+			if in != nil && in.Value() != nil && e.decide(st, small) {
+				e.models[name+" (Go-source model)"]++
+				e.pushFrame(st, rf, a, nil, in.Value())
+				return pushedMarker
+			}
+			var t *Term
+			if signed {
+				t = SExt(x, bigW)
+			} else {
+				t = ZExt(x, bigW)
+			}
+			return e.bigText(st, BigIntVal{t: t, bits: 66}, base)
 		}
 	}
 	x := extraIntrinsics
